@@ -12,10 +12,13 @@ package sftp
 
 import (
 	"bytes"
+	"encoding/binary"
 	"fmt"
+	"io"
 	"os"
 	"path/filepath"
 	"runtime"
+	"strings"
 	"sync"
 	"testing"
 	"time"
@@ -302,6 +305,31 @@ func c18Serve(u *vfUnit, e *c18Env, alloc bool, prog []c18Phase, buf int, shadow
 			}
 		}
 	}
+	// tail: after the well-formed program, one WRITE whose data length field claims more bytes than the packet
+	// carries. Whatever a server makes of it, it makes the same of it with and without the allocator (the bytes
+	// behind the packet's end are not part of the request): answers and the file's content are compared.
+	{
+		base := rs.R.Count()
+		victim := e.files[2]
+		if r, err := rs.R.Phase(60*time.Second, vfPkt{Type: rfOpen, ID: 0xFFF0, Path: victim, Pflags: rfWrite_}); err == nil && len(r) == 1 && r[0].Type == rfHandle {
+			lie := vfPkt{Type: rfWrite, ID: 0xFFF1, Handle: r[0].Handle, Off: 0, Data: []byte("tiny")}.Frame()
+			binary.BigEndian.PutUint32(lie[len(lie)-8:], 5000)
+			rs.R.Send(lie)
+			rs.R.WaitCount(base+2, 60*time.Second) // (returns at the end of the stream too)
+		}
+		var cat []byte
+		for _, b := range rs.R.All()[min(base, rs.R.Count()):] {
+			cat = append(cat, vfFrame(b)...)
+		}
+		var content []byte
+		if e.kind == vfOS {
+			content, _ = os.ReadFile(victim)
+		} else {
+			content, _ = e.store.Get(victim)
+		}
+		out = append(out, append(cat, content...))
+		u.Count("programs_ending_with_a_lying_write", 1)
+	}
 	a := rs.S.alloc()
 	if msg := rs.End(120 * time.Second); msg != "" {
 		u.Violation("serve-end:"+e.kind.String(), label+": "+msg, nil)
@@ -387,6 +415,10 @@ func c18Run(u *vfUnit) {
 		for i := range ref {
 			if i < len(got) && !bytes.Equal(ref[i], got[i]) {
 				d := vfFirstDiff(ref[i], got[i])
+				if i >= len(prog) {
+					u.Violation("responses-differ-after-lying-write:"+kind.String(), fmt.Sprintf("%s: a WRITE whose data length field claims 5000 bytes while the packet carries 4: answers + file content with and without the allocator differ at byte %d (lengths %d vs %d)", label, d, len(ref[i]), len(got[i])), map[string]any{"config": label, "unit": u.Index})
+					break
+				}
 				var req string
 				if len(prog[i]) > 0 {
 					req = prog[i][0].String()
@@ -406,6 +438,120 @@ func c18Run(u *vfUnit) {
 		if pi == 0 {
 			u.Sample(map[string]any{"config": label, "requests": total, "alloc_gets": shadow.gets, "page_reuses": shadow.reuses, "oracle": "byte-equal response streams alloc on/off + shadow ownership table"})
 		}
+	}
+	c18LingeringResponse(u, e)
+}
+
+// c18LingeringResponse: a session (allocator on) whose peer has read only the first bytes of a DATA response when
+// it ends its sending side; while the rest of that response is still waiting to be read, a second session of a new
+// server of the same kind (allocator on) starts in the same process and handles requests. The first peer then
+// reads the rest: it must be the response to its READ, byte for byte — the memory a response is written from is
+// nobody else's until it has been written.
+func c18LingeringResponse(u *vfUnit, e *c18Env) {
+	const size = 3000
+	for round := 0; round < 2; round++ {
+		label := fmt.Sprintf("%v/lingering-response/round=%d", e.kind, round)
+		mk := func(tag string, fill byte) (vfSrvCfg, string, func()) {
+			cfg := vfSrvCfg{Kind: e.kind, Alloc: true, AllocOpt: e.allocOpt, AllocOptRS: e.allocOptRS}
+			content := bytes.Repeat([]byte{fill}, size)
+			if e.kind == vfRS {
+				st := vfNewStore()
+				st.Put("/"+tag, content)
+				cfg.H = st.Handlers(vfHandlerOpt{OpenFile: true, ListAll: true})
+				return cfg, "/" + tag, func() {}
+			}
+			dir := filepath.Join(u.TempDir(), fmt.Sprintf("linger%d-%s", round, tag))
+			os.MkdirAll(dir, 0o755)
+			os.WriteFile(filepath.Join(dir, tag), content, 0o644)
+			return cfg, filepath.Join(dir, tag), func() { os.RemoveAll(dir) }
+		}
+		cfg1, path1, clean1 := mk("first", 'B')
+		ce, se := vfPipe(vfPipeOpts{Buf: 64})
+		srv, err := vfServe(cfg1, se)
+		if err != nil {
+			u.Inconclusive("serve: %v", err)
+			clean1()
+			return
+		}
+		readN := func(n int) ([]byte, bool) {
+			buf := make([]byte, n)
+			var rerr error
+			if w, _ := vfAwait(vfGo(func() { _, rerr = io.ReadFull(ce, buf) }), 60*time.Second); w != vfDone || rerr != nil {
+				return nil, false
+			}
+			return buf, true
+		}
+		readFrame := func() (vfPkt, bool) {
+			h, ok := readN(4)
+			if !ok {
+				return vfPkt{}, false
+			}
+			body, ok := readN(int(binary.BigEndian.Uint32(h)))
+			if !ok {
+				return vfPkt{}, false
+			}
+			p, perr := vfParse(body, true)
+			return p, perr == nil
+		}
+		finish := func() {
+			ce.ForceClose()
+			se.ForceClose()
+			vfAwait(srv.done, 60*time.Second)
+			clean1()
+		}
+		ce.Write(vfPkt{Type: rfInit, Version: 3}.Frame())
+		if p, ok := readFrame(); !ok || p.Type != rfVersion {
+			u.Violation("lingering-response:setup", label+": no VERSION reply", nil)
+			finish()
+			return
+		}
+		ce.Write(vfPkt{Type: rfOpen, ID: 2, Path: path1, Pflags: rfRead_}.Frame())
+		hp, ok := readFrame()
+		if !ok || hp.Type != rfHandle {
+			u.Violation("lingering-response:setup", fmt.Sprintf("%s: OPEN answered %v", label, hp), nil)
+			finish()
+			return
+		}
+		ce.Write(vfPkt{Type: rfRead, ID: 3, Handle: hp.Handle, Off: 0, Len: size}.Frame())
+		head, ok := readN(4)
+		if !ok {
+			u.Violation("lingering-response:setup", label+": no reply to READ", nil)
+			finish()
+			return
+		}
+		// the peer ends its sending side; the server may or may not return from Serve before its response is read
+		ce.CloseWrite()
+		w1, _ := vfAwait(srv.done, 5*time.Second)
+		if w1 == vfDone {
+			u.Count("serve_returned_with_a_response_unread", 1)
+		}
+		// second session: new server value, own transport, ordinary traffic with bytes of its own
+		cfg2, path2, clean2 := mk("second-"+strings.Repeat("Z", 200), 'Z')
+		rs2, err := vfRawConnect(cfg2, vfPipeOpts{}, true)
+		if err == nil {
+			var reqs []vfPkt
+			for i := 0; i < 6; i++ {
+				reqs = append(reqs, vfPkt{Type: rfStat, ID: uint32(50 + i), Path: path2})
+			}
+			reqs = append(reqs, vfPkt{Type: rfOpen, ID: 70, Path: path2, Pflags: rfRead_})
+			resp, perr := rs2.R.Phase(60*time.Second, reqs...)
+			if perr == nil && len(resp) == 7 && resp[6].Type == rfHandle {
+				rs2.R.Phase(60*time.Second, vfPkt{Type: rfRead, ID: 71, Handle: resp[6].Handle, Off: 0, Len: size})
+			}
+		}
+		// now the first peer reads the rest of its response
+		rest, ok := readN(int(binary.BigEndian.Uint32(head)))
+		u.Count("lingering_responses_checked", 1)
+		if !ok {
+			u.Violation("lingering-response:lost", label+": the rest of a response whose first bytes had been sent never arrived", nil)
+		} else if p, perr := vfParse(rest, true); perr != nil || p.Type != rfData || p.ID != 3 || !bytes.Equal(p.Data, bytes.Repeat([]byte{'B'}, size)) {
+			u.Violation("lingering-response:bytes", fmt.Sprintf("%s: the response to READ id=3 (%d bytes 'B'), read after another session had started, is %v (%v): first difference at %d", label, size, p, perr, vfFirstDiff(p.Data, bytes.Repeat([]byte{'B'}, size))), nil)
+		}
+		if rs2 != nil {
+			rs2.End(60 * time.Second)
+		}
+		clean2()
+		finish()
 	}
 }
 
